@@ -5,6 +5,11 @@ import json, os, re, sys
 HERE = os.path.dirname(os.path.dirname(os.path.abspath(__file__)))
 # seeds that no check reported when they arrived; the rule named was added afterwards
 MISSED_FIRST = {
+    "c07-saved-value-released-after-copy": "T12-dbiter-composition/saved-value-kept",
+    "c11-has-drops-read-options": "T2-read-options-forwarded",
+    "c16-foreign-filter-block-loaded": "T2-filter-name-match",
+    "c17-deleted-set-compare-truncated": "T8-deleted-set-order",
+    "c18-reverse-scan-stuck-on-bad-key": "T1-decoder-progress over the DB-iterator scans (C07's composition table saw it; C18 did not)",
     "c01-level0-closure-no-restart": "T2-level0-closure",
     "c02-waiter-sync-flag-dropped": "T6-waiter-sync-flag",
     "c11-zero-record-silently-skipped": "T1-log-no-silent-skip",
